@@ -172,6 +172,7 @@ template <class A> void s1b(vf::Ctx& c, size_t W, double p, bool isVar, int dept
 
 // ---- S2 -------------------------------------------------------------------------------------------------------
 struct Dev { int pos; int kind; };   // kind 0: reset before update pos, 1: outlier value at pos
+inline double script2sign(size_t i) { return (i / 200) % 2 ? -1.0 : 1.0; }
 template <class A> void run_script(vf::Ctx& c, size_t W, double p, bool isVar, const std::vector<Dev>& devs, bool checkEvery, int script = 0) {
   std::vector<double> alpha = alphabet(p, false);
   A a(p, W); Model m{W};
@@ -180,6 +181,7 @@ template <class A> void run_script(vf::Ctx& c, size_t W, double p, bool isVar, c
   for (size_t i = 0; i < len; ++i) {
     double v = alpha[i % alpha.size()] + (double)((i * 7) % 5) * p;   // cyclic default script
     if (script == 1) v = ((i % 2) ? -1.0 : 1.0) * (9e7 + (double)((i * 7) % 5) + 0.5) * p;   // wide script: alternating sign near the |v|/precision = 1e8 bound
+    if (script == 2) v = (script2sign(i) ) * (9e7 + 1e5 * (double)((i * 7) % 5) + 0.5) * p;   // biased script: one sign for long stretches (the window SUM is large, not only the sum of squares)
     bool dev = false;
     for (auto& d : devs) if ((size_t)d.pos == i) {
       dev = true;
@@ -190,7 +192,7 @@ template <class A> void run_script(vf::Ctx& c, size_t W, double p, bool isVar, c
     c.transitions();
     if (checkEvery || dev || i + 1 == len || (i % W) == W - 1) {
       auto params = [&]() {
-        vf::JO o; o.str("explorer", "S2").str("object", isVar ? "OnlineVariance" : "OnlineAverage").u("window", W).num("precision", p).str("script", script ? "alternating +-9e7*precision" : "cyclic small values").u("step", i);
+        vf::JO o; o.str("explorer", "S2").str("object", isVar ? "OnlineVariance" : "OnlineAverage").u("window", W).num("precision", p).str("script", script == 1 ? "alternating +-9e7*precision" : script == 2 ? "biased 9e7*precision, one sign for 200 steps" : "cyclic small values").u("step", i);
         std::string ds = "["; for (size_t k = 0; k < devs.size(); ++k) { if (k) ds += ","; ds += vf::JO().i("pos", devs[k].pos).str("kind", devs[k].kind ? "outlier" : "reset").done(); } ds += "]";
         o.raw("deviations", ds); return o.done();
       };
@@ -203,11 +205,11 @@ template <class A> void run_script(vf::Ctx& c, size_t W, double p, bool isVar, c
 
 template <class A> void s2(vf::Ctx& c, size_t W, double p, bool isVar, int bound, int firstPos) {
   // firstPos < 0: bound-0 run; otherwise all deviation sets whose first deviation is at firstPos
-  if (firstPos < 0) { run_script<A>(c, W, p, isVar, {}, true); run_script<A>(c, W, p, isVar, {}, true, 1); return; }
+  if (firstPos < 0) { run_script<A>(c, W, p, isVar, {}, true); run_script<A>(c, W, p, isVar, {}, true, 1); run_script<A>(c, W, p, isVar, {}, true, 2); return; }
   int len = (int)(10 * W);
   for (int k1 = 0; k1 < 2; ++k1) {
     run_script<A>(c, W, p, isVar, {{firstPos, k1}}, W <= 8);
-    if (k1 == 0) run_script<A>(c, W, p, isVar, {{firstPos, 0}}, W <= 8, 1);   // a reset anywhere in the wide script
+    if (k1 == 0) { run_script<A>(c, W, p, isVar, {{firstPos, 0}}, W <= 8, 1); run_script<A>(c, W, p, isVar, {{firstPos, 0}}, W <= 8, 2); }   // a reset anywhere in the wide and in the biased script
     if (bound >= 2)
       for (int p2 = firstPos + 1; p2 < len; ++p2)
         for (int k2 = 0; k2 < 2; ++k2) run_script<A>(c, W, p, isVar, {{firstPos, k1}, {p2, k2}}, false);
@@ -305,7 +307,7 @@ std::string vf_describe(const std::string& tier) {
   o.vec("precisions", std::vector<double>(kPrec, kPrec + kNPrec));
   o.str("S1", th ? "windows 1..5 (variance 2..5)" : "windows 1..4 (variance 2..4)");
   o.str("S1_ops", "update(v) for v in {0.5,-1.5,7.5,-1234.5,99999999.5}*precision, reset(); BFS to fixpoint over (index, data, sums; model window, count)");
-  o.str("S2_scripts", "cyclic small values; alternating-sign values of magnitude 9e7*precision (bound 0 and a reset at every position)");
+  o.str("S2_scripts", "cyclic small values; alternating-sign values of magnitude 9e7*precision; one-signed values of magnitude 9e7*precision (bound 0 and a reset at every position for the last two)");
   o.str("S2", th ? "every window 1..64, 10*W updates, deviation bound 1 (reset or outlier at any position), bound 2 for W<=8, W=12, W=64"
                  : "every window 1..64 bound 0; bound 1 for W<=8,16,63,64 (all precisions) and all W at precisions 1e-3,1e-6; bound 2 for W<=8");
   o.str("S1b", th ? "every update/reset sequence of length 7 for windows 1..3, no state de-duplication; alphabet = the five S1 values, exactly 0.0, reset, continue with a copy-constructed object" : "every update/reset sequence of length 5 for windows 1..3, no state de-duplication; alphabet = the five S1 values, exactly 0.0, reset, continue with a copy-constructed object");
